@@ -238,9 +238,11 @@ structure Good (v : View) (A : List Nat) : Prop where
   bit : v.init = false → ∀ p ∈ A, v.last - p < 64 → v.win.testBit (v.last - p) = true
   top : v.init = false → v.last ∈ A
   conv : v.init = false → ∀ k, k < 64 → v.win.testBit k = true → k ≤ v.last ∧ v.last - k ∈ A
+  lt : v.init = false → v.last < SEQ_MAX
 
 theorem good_fresh : Good Recip.fresh.view [] :=
-  ⟨fun _ => rfl, fun h => (by cases h), fun h => (by cases h), fun h => (by cases h), fun h => (by cases h)⟩
+  ⟨fun _ => rfl, fun h => (by cases h), fun h => (by cases h), fun h => (by cases h), fun h => (by cases h),
+    fun h => (by cases h)⟩
 
 theorem vvalidate_good {cfg : Cfg} {v v' : View} {A : List Nat} {p : Nat} (g : Good v A)
     (h : vvalidate cfg v p = some v') : p ∉ A ∧ Good v' (p :: A) := by
@@ -253,7 +255,7 @@ theorem vvalidate_good {cfg : Cfg} {v v' : View} {A : List Nat} {p : Nat} (g : G
     cases h
     have hA := g.fresh h2
     subst hA
-    refine ⟨by simp, ⟨fun h => (by cases h), ?_, ?_, ?_, ?_⟩⟩
+    refine ⟨by simp, ⟨fun h => (by cases h), ?_, ?_, ?_, ?_, ?_⟩⟩
     · intro _ q hq; simp at hq; simp [hq]
     · intro _ q hq _; simp at hq; subst hq; simp [Nat.testBit_one_zero]
     · intro _; simp
@@ -262,13 +264,14 @@ theorem vvalidate_good {cfg : Cfg} {v v' : View} {A : List Nat} {p : Nat} (g : G
       rw [testBit_one] at hk
       have : k = 0 := by simpa using hk
       subst this; simp
+    · intro _; dsimp only; omega
   rw [if_neg h2] at h
   have hi : v.init = false := by simpa using h2
   by_cases h3 : p > v.last
   · rw [if_pos h3] at h
     cases h
     have hnot : p ∉ A := fun hp => by have := g.le hi p hp; omega
-    refine ⟨hnot, ⟨fun h => (by cases h), ?_, ?_, ?_, ?_⟩⟩
+    refine ⟨hnot, ⟨fun h => (by cases h), ?_, ?_, ?_, ?_, ?_⟩⟩
     · intro _ q hq
       dsimp only
       rcases List.mem_cons.mp hq with rfl | hq
@@ -304,6 +307,7 @@ theorem vvalidate_good {cfg : Cfg} {v v' : View} {A : List Nat} {p : Nat} (g : G
           have e : p - k = v.last - (k - (p - v.last)) := by omega
           rw [e]
           exact List.mem_cons_of_mem _ this.2
+    · intro _; dsimp only; omega
   rw [if_neg h3] at h
   by_cases h4 : p = v.last
   · rw [if_pos h4] at h; cases h
@@ -316,7 +320,7 @@ theorem vvalidate_good {cfg : Cfg} {v v' : View} {A : List Nat} {p : Nat} (g : G
   rw [if_neg h6] at h
   cases h
   have hnot : p ∉ A := fun hp => h6 (g.bit hi p hp (by omega))
-  refine ⟨hnot, ⟨fun h => (by cases h), ?_, ?_, ?_, ?_⟩⟩
+  refine ⟨hnot, ⟨fun h => (by cases h), ?_, ?_, ?_, ?_, ?_⟩⟩
   · intro _ q hq
     dsimp only
     rcases List.mem_cons.mp hq with rfl | hq
@@ -341,6 +345,7 @@ theorem vvalidate_good {cfg : Cfg} {v v' : View} {A : List Nat} {p : Nat} (g : G
       refine ⟨by omega, ?_⟩
       have e : v.last - (v.last - p) = p := by omega
       rw [e]; simp
+  · intro _; exact g.lt hi
 
 
 theorem recv_fst_view (cfg : Cfg) (r : Recip) (ev : Ev) : (recv cfg r ev).1.view = (vrecv cfg r.view ev).1 :=
@@ -388,46 +393,6 @@ theorem recv_good {cfg : Cfg} {r : Recip} {A : List Nat} (ev : Ev) (g : Good r.v
     exact ⟨rfl, ha, this.1, this.2⟩
   · right; exact ⟨h2, h3, h1⟩
 
-/-- Partial IVs of the requests accepted in a history, in order. -/
-def accepted (cfg : Cfg) : Recip → List Ev → List Nat
-  | _, [] => []
-  | r, ev :: evs => (if (recv cfg r ev).2 = .acc then [ev.piv] else []) ++ accepted cfg (recv cfg r ev).1 evs
-
-/-- The recipient context after a history. -/
-def final (cfg : Cfg) : Recip → List Ev → Recip
-  | r, [] => r
-  | r, ev :: evs => final cfg (recv cfg r ev).1 evs
-
-/-- The verdicts of a history. -/
-def verdicts (cfg : Cfg) : Recip → List Ev → List Verdict
-  | _, [] => []
-  | r, ev :: evs => (recv cfg r ev).2 :: verdicts cfg (recv cfg r ev).1 evs
-
-theorem accepted_nodup_aux (cfg : Cfg) (evs : List Ev) : ∀ (r : Recip) (A : List Nat), Good r.view A →
-    (accepted cfg r evs).Nodup ∧ (∀ p ∈ accepted cfg r evs, p ∉ A) ∧
-      Good (final cfg r evs).view ((accepted cfg r evs).reverse ++ A) := by
-  induction evs with
-  | nil => intro r A g; simp [accepted, final, g]
-  | cons ev evs ih =>
-    intro r A g
-    rcases recv_good (cfg := cfg) ev g with ⟨hacc, _, hnot, g'⟩ | ⟨hacc, _, hview⟩
-    · have := ih (recv cfg r ev).1 (ev.piv :: A) g'
-      obtain ⟨nd, dis, gf⟩ := this
-      simp only [accepted, final, hacc, if_true]
-      refine ⟨?_, ?_, ?_⟩
-      · simp only [List.singleton_append, List.nodup_cons]
-        exact ⟨fun hm => (dis _ hm) (List.mem_cons_self), nd⟩
-      · intro p hp
-        simp only [List.singleton_append, List.mem_cons] at hp
-        rcases hp with rfl | hp
-        · exact hnot
-        · exact fun hA => dis p hp (List.mem_cons_of_mem _ hA)
-      · simpa using gf
-    · have g' : Good (recv cfg r ev).1.view A := by rw [hview]; exact g
-      obtain ⟨nd, dis, gf⟩ := ih (recv cfg r ev).1 A g'
-      simp only [accepted, final, hacc, if_false, List.nil_append]
-      exact ⟨nd, dis, gf⟩
-
 theorem vvalidate_live {cfg : Cfg} {v : View} {A : List Nat} {p : Nat} (g : Good v A) (hp : p < SEQ_MAX)
     (hn : p ∉ A) (hw : ∀ q ∈ A, q < p + min cfg.window 64) : ∃ v', vvalidate cfg v p = some v' := by
   unfold vvalidate
@@ -464,6 +429,354 @@ theorem vrecv_acc {cfg : Cfg} {v v' : View} {ev : Ev} (ha : ev.authentic = true)
     rcases hs with hs | hs
     · exact absurd hs hval
     · simp [ha, hs, hv]
+
+
+/-! ### The response path on the view, and messages (requests and responses on one recipient context) -/
+
+/-- After the first acceptance `last_seq` is below `OSCORE_SEQ_MAX`: an invariant of every reachable state
+(`Good.lt`, `reachable_sane`); an unreachable state without it can take the `SEQ_MAX` exit of the response path after
+`oscore_validate_sender_seq` has already recorded the Partial IV. -/
+def Sane (v : View) : Prop := v.init = false → v.last < SEQ_MAX
+
+/-- the response path on the view -/
+def vrecvRsp (cfg : Cfg) (v : View) (x : Rsp) : View × Verdict :=
+  match x.piv with
+  | none => if !x.authentic then (v, .drop) else (v, .acc)
+  | some p =>
+    if v.init then
+      if v.last ≥ SEQ_MAX then (v, .drop)
+      else if !x.authentic then (v, .drop)
+      else (⟨true, if p > v.last then p else v.last, v.win⟩, .acc)
+    else
+      match vvalidate cfg v p with
+      | none => (v, .drop)
+      | some v1 =>
+        if v1.last ≥ SEQ_MAX then (v1, .drop)
+        else if !x.authentic then (v, .drop)
+        else (⟨false, if p > v1.last then p else v1.last, v1.win⟩, .acc)
+
+/-- The verdict and the new view computed by `recvRsp` depend on the view only, and are given by `vrecvRsp`. -/
+theorem recvRsp_view (cfg : Cfg) (r : Recip) (x : Rsp) :
+    ((recvRsp cfg r x).1.view, (recvRsp cfg r x).2) = vrecvRsp cfg r.view x := by
+  unfold recvRsp vrecvRsp
+  cases hp : x.piv with
+  | none =>
+    by_cases ha : x.authentic = true <;> simp [ha]
+  | some p =>
+    simp only []
+    have hvi : r.view.init = r.init := rfl
+    have hvl : r.view.last = r.last := rfl
+    rw [hvi]
+    cases hi : r.init with
+    | true =>
+      simp only [Bool.not_true, Bool.false_eq_true, if_false, if_true]
+      rw [hvl]
+      by_cases h1 : r.last ≥ SEQ_MAX
+      · simp [h1]
+      · simp only [h1, if_false]
+        by_cases ha : x.authentic = true
+        · by_cases h2 : p > r.last <;> simp [ha, h2, Recip.view, hi]
+        · have ha' : x.authentic = false := by simpa using ha
+          by_cases h2 : p > r.last <;> simp [ha', h2, Recip.view]
+    | false =>
+      simp only [Bool.not_false, if_true, Bool.false_eq_true, if_false]
+      cases hv : vvalidate cfg r.view p with
+      | none =>
+        rcases validate_none hv with h | h <;> rw [h] <;> rfl
+      | some v1 =>
+        rw [validate_some hv]
+        simp only []
+        by_cases h1 : v1.last ≥ SEQ_MAX
+        · simp only [h1, if_true]
+          have := vvalidate_init_false hv
+          cases v1; simp_all [Recip.view]
+        · simp only [h1, if_false]
+          by_cases ha : x.authentic = true
+          · by_cases h2 : p > v1.last <;> simp [ha, h2, Recip.view]
+          · have ha' : x.authentic = false := by simpa using ha
+            by_cases h2 : p > v1.last <;> simp [ha', h2, Recip.view, rollback, saved]
+
+theorem recvRsp_fst_view (cfg : Cfg) (r : Recip) (x : Rsp) : (recvRsp cfg r x).1.view = (vrecvRsp cfg r.view x).1 :=
+  congrArg Prod.fst (recvRsp_view cfg r x)
+
+theorem recvRsp_snd (cfg : Cfg) (r : Recip) (x : Rsp) : (recvRsp cfg r x).2 = (vrecvRsp cfg r.view x).2 :=
+  congrArg Prod.snd (recvRsp_view cfg r x)
+
+/-- one message on the view -/
+def vstep (cfg : Cfg) (v : View) : Msg → View × Verdict
+  | .req e => vrecv cfg v e
+  | .rsp x => vrecvRsp cfg v x
+
+theorem step_view (cfg : Cfg) (r : Recip) (m : Msg) :
+    ((step cfg r m).1.view, (step cfg r m).2) = vstep cfg r.view m := by
+  cases m with
+  | req e => exact recv_view cfg r e
+  | rsp x => exact recvRsp_view cfg r x
+
+theorem step_fst_view (cfg : Cfg) (r : Recip) (m : Msg) : (step cfg r m).1.view = (vstep cfg r.view m).1 :=
+  congrArg Prod.fst (step_view cfg r m)
+
+theorem step_snd (cfg : Cfg) (r : Recip) (m : Msg) : (step cfg r m).2 = (vstep cfg r.view m).2 :=
+  congrArg Prod.snd (step_view cfg r m)
+
+theorem vvalidate_last_lt {cfg : Cfg} {v v' : View} {p : Nat} (h : vvalidate cfg v p = some v') (hs : Sane v) :
+    v'.last < SEQ_MAX := by
+  unfold vvalidate at h
+  by_cases h1 : p ≥ SEQ_MAX
+  · rw [if_pos h1] at h; cases h
+  rw [if_neg h1] at h
+  by_cases h2 : v.init = true
+  · rw [if_pos h2] at h; cases h; dsimp only; omega
+  rw [if_neg h2] at h
+  have hi : v.init = false := by simpa using h2
+  by_cases h3 : p > v.last
+  · rw [if_pos h3] at h; cases h; dsimp only; omega
+  rw [if_neg h3] at h
+  by_cases h4 : p = v.last
+  · rw [if_pos h4] at h; cases h
+  rw [if_neg h4] at h
+  by_cases h5 : v.last - p > cfg.window ∨ v.last - p > 63
+  · rw [if_pos h5] at h; cases h
+  rw [if_neg h5] at h
+  by_cases h6 : v.win.testBit (v.last - p) = true
+  · rw [if_pos h6] at h; cases h
+  rw [if_neg h6] at h
+  cases h
+  exact hs hi
+
+/-- The response path never reaches a shift by ≥ 64 and never accepts a response that does not verify (any state). -/
+theorem vrecvRsp_not_ub (cfg : Cfg) (v : View) (x : Rsp) : (vrecvRsp cfg v x).2 ≠ .ub := by
+  unfold vrecvRsp
+  repeat' split
+  all_goals (intro h; cases h)
+
+theorem vrecvRsp_forged_not_acc (cfg : Cfg) (v : View) (x : Rsp) (h : x.authentic = false) :
+    (vrecvRsp cfg v x).2 ≠ .acc := by
+  unfold vrecvRsp
+  cases hp : x.piv with
+  | none => simp [h]
+  | some p =>
+    simp only []
+    by_cases hi : v.init = true
+    · rw [if_pos hi]
+      by_cases h1 : v.last ≥ SEQ_MAX
+      · rw [if_pos h1]; intro h; cases h
+      · rw [if_neg h1]; simp [h]
+    · rw [if_neg hi]
+      cases hv : vvalidate cfg v p with
+      | none => intro h; cases h
+      | some v1 =>
+        simp only []
+        by_cases h1 : v1.last ≥ SEQ_MAX
+        · rw [if_pos h1]; intro h; cases h
+        · rw [if_neg h1]; simp [h]
+
+/-- A response that does not verify leaves the view as it was (any sane state, any claimed Partial IV). -/
+theorem vrecvRsp_forged {cfg : Cfg} {v : View} {x : Rsp} (h : x.authentic = false) (hs : Sane v) :
+    vrecvRsp cfg v x = (v, .drop) := by
+  unfold vrecvRsp
+  cases hp : x.piv with
+  | none => simp [h]
+  | some p =>
+    simp only []
+    by_cases hi : v.init = true
+    · rw [if_pos hi]
+      by_cases h1 : v.last ≥ SEQ_MAX
+      · rw [if_pos h1]
+      · rw [if_neg h1]; simp [h]
+    · rw [if_neg hi]
+      cases hv : vvalidate cfg v p with
+      | none => rfl
+      | some v1 =>
+        have := vvalidate_last_lt hv hs
+        have h1 : ¬ v1.last ≥ SEQ_MAX := by omega
+        simp only [h1, if_false]
+        simp [h]
+
+/-- One response in a state consistent with the set `A` of recorded Partial IVs: either it is validated and accepted
+(then its PIV was not recorded before and is now), or nothing is recorded and `A` still describes the window. -/
+theorem vrecvRsp_good {cfg : Cfg} {v : View} {A : List Nat} (x : Rsp) (g : Good v A) :
+    (∃ p v', x.piv = some p ∧ v.init = false ∧ x.authentic = true ∧ vvalidate cfg v p = some v' ∧
+        vrecvRsp cfg v x = (v', .acc) ∧ p ∉ A ∧ Good v' (p :: A)) ∨
+    ((x.piv = none ∨ v.init = true ∨ (vrecvRsp cfg v x).2 ≠ .acc) ∧ Good (vrecvRsp cfg v x).1 A) := by
+  cases hp : x.piv with
+  | none =>
+    right
+    refine ⟨Or.inl rfl, ?_⟩
+    unfold vrecvRsp
+    rw [hp]
+    by_cases ha : x.authentic = true <;> simp [ha, g]
+  | some p =>
+    by_cases hi : v.init = true
+    · right
+      refine ⟨Or.inr (Or.inl hi), ?_⟩
+      have hA := g.fresh hi
+      unfold vrecvRsp
+      rw [hp]
+      simp only [hi, if_true]
+      by_cases h1 : v.last ≥ SEQ_MAX
+      · rw [if_pos h1]; exact g
+      · rw [if_neg h1]
+        by_cases ha : x.authentic = true
+        · simp only [ha, Bool.not_true, Bool.false_eq_true, if_false]
+          exact ⟨fun _ => hA, fun h => (by cases h), fun h => (by cases h), fun h => (by cases h),
+            fun h => (by cases h), fun h => (by cases h)⟩
+        · simp [ha, g]
+    · have hi' : v.init = false := by simpa using hi
+      cases hv : vvalidate cfg v p with
+      | none =>
+        right
+        unfold vrecvRsp
+        rw [hp]
+        simp only [hi, if_false, hv]
+        exact ⟨Or.inr (Or.inr (by intro h; cases h)), g⟩
+      | some v1 =>
+        have hg := vvalidate_good g hv
+        have hi1 := vvalidate_init_false hv
+        have hlt := hg.2.lt hi1
+        have hle : p ≤ v1.last := hg.2.le hi1 p List.mem_cons_self
+        have h1 : ¬ v1.last ≥ SEQ_MAX := by omega
+        have h2 : ¬ p > v1.last := by omega
+        by_cases ha : x.authentic = true
+        · left
+          refine ⟨p, v1, rfl, hi', ha, hv, ?_, hg.1, hg.2⟩
+          unfold vrecvRsp
+          rw [hp]
+          simp only [hi, if_false, hv, h1, ha, Bool.not_true, Bool.false_eq_true, h2]
+          cases v1; simp_all
+        · right
+          have ha' : x.authentic = false := by simpa using ha
+          have hs : Sane v := g.lt
+          rw [vrecvRsp_forged ha' hs]
+          exact ⟨Or.inr (Or.inr (by intro h; cases h)), g⟩
+
+/-! ### Histories of messages -/
+
+/-- The Partial IV this message records in the replay window of state `r` (a request that is accepted; a response
+carrying its own Partial IV that is accepted after validation, i.e. once the window is initialised). -/
+def taken (cfg : Cfg) (r : Recip) : Msg → List Nat
+  | .req e => if (recv cfg r e).2 = .acc then [e.piv] else []
+  | .rsp x =>
+    match x.piv with
+    | some p => if (recvRsp cfg r x).2 = .acc ∧ r.init = false then [p] else []
+    | none => []
+
+/-- The Partial IV of this message if it is a request that is accepted. -/
+def acceptedBy (cfg : Cfg) (r : Recip) : Msg → List Nat
+  | .req e => if (recv cfg r e).2 = .acc then [e.piv] else []
+  | .rsp _ => []
+
+/-- Partial IVs of the *requests* accepted in a history of requests and responses, in order. -/
+def accepted (cfg : Cfg) : Recip → List Msg → List Nat
+  | _, [] => []
+  | r, m :: ms => acceptedBy cfg r m ++ accepted cfg (step cfg r m).1 ms
+
+/-- Partial IVs recorded in the window in a history (accepted requests and validated accepted responses), in order. -/
+def recorded (cfg : Cfg) : Recip → List Msg → List Nat
+  | _, [] => []
+  | r, m :: ms => taken cfg r m ++ recorded cfg (step cfg r m).1 ms
+
+/-- The recipient context after a history. -/
+def final (cfg : Cfg) : Recip → List Msg → Recip
+  | r, [] => r
+  | r, m :: ms => final cfg (step cfg r m).1 ms
+
+/-- The verdicts of a history. -/
+def verdicts (cfg : Cfg) : Recip → List Msg → List Verdict
+  | _, [] => []
+  | r, m :: ms => (step cfg r m).2 :: verdicts cfg (step cfg r m).1 ms
+
+theorem acceptedBy_sublist (cfg : Cfg) (r : Recip) (m : Msg) : (acceptedBy cfg r m).Sublist (taken cfg r m) := by
+  cases m with
+  | req e => exact List.Sublist.refl _
+  | rsp x => exact List.nil_sublist _
+
+theorem accepted_sublist (cfg : Cfg) (ms : List Msg) : ∀ r : Recip, (accepted cfg r ms).Sublist (recorded cfg r ms) := by
+  induction ms with
+  | nil => intro _; exact List.Sublist.refl _
+  | cons m ms ih =>
+    intro r
+    simp only [accepted, recorded]
+    exact List.Sublist.append (acceptedBy_sublist cfg r m) (ih _)
+
+/-- One message in a state consistent with `A`: no undefined shift, what it records was not recorded before, and the
+new state is consistent with the enlarged set. -/
+theorem step_good {cfg : Cfg} {r : Recip} {A : List Nat} (m : Msg) (g : Good r.view A) :
+    (∀ p ∈ taken cfg r m, p ∉ A) ∧ Good (step cfg r m).1.view ((taken cfg r m).reverse ++ A) := by
+  cases m with
+  | req e =>
+    simp only [step, taken]
+    rcases recv_good (cfg := cfg) e g with ⟨hacc, _, hnot, g'⟩ | ⟨hacc, _, hview⟩
+    · simp only [hacc, if_true, List.mem_singleton, forall_eq, List.reverse_singleton, List.singleton_append]
+      exact ⟨hnot, g'⟩
+    · simp only [hacc, if_false, List.reverse_nil, List.nil_append]
+      rw [hview]
+      exact ⟨by simp, g⟩
+  | rsp x =>
+    simp only [step]
+    rw [recvRsp_fst_view]
+    rcases vrecvRsp_good (cfg := cfg) x g with ⟨p, v', hp, hi, _, _, he, hnot, g'⟩ | ⟨hno, g'⟩
+    · have hi' : r.init = false := hi
+      have hacc : (recvRsp cfg r x).2 = .acc := by rw [recvRsp_snd, he]
+      simp only [taken, hp, hacc, hi', and_self, if_true, List.mem_singleton, forall_eq, List.reverse_singleton,
+        List.singleton_append]
+      rw [he]
+      exact ⟨hnot, g'⟩
+    · have ht : taken cfg r (.rsp x) = [] := by
+        cases hp : x.piv with
+        | none => simp [taken, hp]
+        | some p =>
+          rcases hno with h | h | h
+          · rw [hp] at h; cases h
+          · have h' : r.init = true := h
+            simp [taken, hp, h']
+          · rw [← recvRsp_snd] at h
+            simp [taken, hp, h]
+      rw [ht]
+      exact ⟨by simp, by simpa using g'⟩
+
+theorem recorded_nodup_aux (cfg : Cfg) (ms : List Msg) : ∀ (r : Recip) (A : List Nat), Good r.view A →
+    (recorded cfg r ms).Nodup ∧ (∀ p ∈ recorded cfg r ms, p ∉ A) ∧
+      Good (final cfg r ms).view ((recorded cfg r ms).reverse ++ A) := by
+  induction ms with
+  | nil => intro r A g; simp [recorded, final, g]
+  | cons m ms ih =>
+    intro r A g
+    obtain ⟨hnot, g'⟩ := step_good (cfg := cfg) m g
+    obtain ⟨nd, dis, gf⟩ := ih (step cfg r m).1 _ g'
+    have hlen : ∀ p ∈ taken cfg r m, taken cfg r m = [p] := by
+      intro p hp
+      cases m with
+      | req e =>
+        simp only [taken] at hp ⊢
+        split at hp
+        · simp only [List.mem_singleton] at hp; subst hp; simp [*]
+        · cases hp
+      | rsp x =>
+        simp only [taken] at hp ⊢
+        split at hp
+        · split at hp
+          · simp only [List.mem_singleton] at hp; subst hp; simp [*]
+          · cases hp
+        · cases hp
+    simp only [recorded, final]
+    refine ⟨?_, ?_, ?_⟩
+    · rw [List.nodup_append]
+      refine ⟨?_, nd, ?_⟩
+      · cases ht : taken cfg r m with
+        | nil => simp
+        | cons a t =>
+          have := hlen a (by rw [ht]; exact List.mem_cons_self)
+          rw [ht] at this
+          rw [this]; simp
+      · intro a ha b hb hab
+        subst hab
+        exact dis a hb (List.mem_append_left _ (List.mem_reverse.mpr ha))
+    · intro p hp
+      rcases List.mem_append.mp hp with hp | hp
+      · exact hnot p hp
+      · exact fun hA => dis p hp (List.mem_append_right _ hA)
+    · simpa [List.reverse_append, List.append_assoc] using gf
 
 
 /-! ### Sender side -/
@@ -606,7 +919,7 @@ theorem srun_increasing (ops : List SOp) : ∀ (y : SSys) (U : List Nat) (n : Na
 
 /-! ### Conformance of M to the specification monitor S -/
 section Conformance
-open Coap.ReplaySpec (St Req Out allowed next conforms inWindow maxOf)
+open Coap.ReplaySpec (St Out allowed allowedReq allowedRsp next conforms inWindow maxOf)
 
 theorem le_maxOf {A : List Nat} {q : Nat} (h : q ∈ A) : q ≤ maxOf A := by
   induction A with
@@ -633,142 +946,330 @@ theorem vvalidate_none_init {cfg : Cfg} {v : View} {p : Nat} (hi : v.init = true
   · exact h1
   · rw [if_neg h1, if_pos hi] at h; cases h
 
-/-- One step of M is allowed by the specification monitor, and the monitor state stays related to M's state:
-its accepted set is described by the window (`Good`), `synced` is "validation is armed". -/
-theorem vrecv_conforms {cfg : Cfg} {v : View} {A : List Nat} (ev : Ev) (g : Good v A) :
-    outOf (vrecv cfg v ev).2 ∈ allowed cfg.window ⟨A, !v.init || !cfg.b12⟩ (reqOf ev) ∧
-    Good (vrecv cfg v ev).1 (next ⟨A, !v.init || !cfg.b12⟩ (reqOf ev) (outOf (vrecv cfg v ev).2)).accepted ∧
-    (next ⟨A, !v.init || !cfg.b12⟩ (reqOf ev) (outOf (vrecv cfg v ev).2)).synced =
-      (!(vrecv cfg v ev).1.init || !cfg.b12) := by
+/-- How the monitor's state is related to M's state: the window describes a set `A` of recorded Partial IVs (`Good`),
+every recorded PIV was accepted in a request or in a response, every accepted request is recorded, `synced` is
+"validation is armed", and before the first acceptance `last_seq` is 0 or the PIV of an accepted response. -/
+structure Rel (cfg : Cfg) (v : View) (A : List Nat) (s : St) : Prop where
+  good : Good v A
+  sub : ∀ p ∈ A, p ∈ s.accepted ∨ p ∈ s.seen
+  acc : ∀ p ∈ s.accepted, p ∈ A
+  synced : s.synced = (!v.init || !cfg.b12)
+  lastInit : v.init = true → v.last = 0 ∨ v.last ∈ s.all
+
+theorem rel_start (cfg : Cfg) : Rel cfg Recip.fresh.view [] (St.start cfg.b12) :=
+  ⟨good_fresh, fun _ h => (by cases h), fun _ h => (by cases h), rfl, fun _ => Or.inl rfl⟩
+
+theorem mem_all {s : St} {p : Nat} : p ∈ s.all ↔ p ∈ s.accepted ∨ p ∈ s.seen := by
+  unfold St.all; exact List.mem_append
+
+theorem next_not_accept (s : St) (m : ReplaySpec.Msg) (o : Out) (h : o ≠ .accept) : next s m o = s := by
+  cases o <;> simp_all [next]
+
+theorem outOf_accept {v : Verdict} : outOf v = .accept ↔ v = .acc := by
+  cases v <;> simp [outOf]
+
+/-- A step that does not accept and leaves the view alone keeps the relation. -/
+theorem rel_keep {cfg : Cfg} {v v' : View} {A : List Nat} {s : St} (R : Rel cfg v A s) (m : ReplaySpec.Msg)
+    (vd : Verdict) (hv : v' = v) (hn : vd ≠ .acc) : ∃ A', Rel cfg v' A' (next s m (outOf vd)) := by
+  have : outOf vd ≠ .accept := fun h => hn (outOf_accept.mp h)
+  rw [next_not_accept _ _ _ this, hv]
+  exact ⟨A, R⟩
+
+/-- If nothing recorded and nothing seen forbids it, `oscore_validate_sender_seq` succeeds. -/
+theorem rel_live {cfg : Cfg} {v : View} {A : List Nat} {s : St} (R : Rel cfg v A s) {p : Nat}
+    (hc : p ∉ s.accepted) (hs : p ∉ s.seen) (hl : ¬ p ≥ ReplaySpec.SEQ_LIMIT)
+    (hw : inWindow cfg.window s.all p = true) : ∃ v', vvalidate cfg v p = some v' := by
+  have hlim : ReplaySpec.SEQ_LIMIT = SEQ_MAX := by decide
+  have hnA : p ∉ A := fun h => by
+    rcases R.sub _ h with h | h
+    · exact hc h
+    · exact hs h
+  have hall : ∀ q ∈ A, q < p + min cfg.window 64 := fun q hq =>
+    inWindow_all hw q (mem_all.mpr (R.sub q hq))
+  exact vvalidate_live R.good (by omega) hnA hall
+
+/-- The relation after an accepted, validated message with Partial IV `p`. -/
+theorem rel_acc_req {cfg : Cfg} {v v' : View} {A : List Nat} {s : St} (R : Rel cfg v A s) {p : Nat}
+    (hv : vvalidate cfg v p = some v') :
+    Rel cfg v' (p :: A) { s with accepted := p :: s.accepted, synced := true } := by
+  have hg := vvalidate_good R.good hv
+  have hi := vvalidate_init_false hv
+  refine ⟨hg.2, ?_, ?_, by simp [hi], fun h => by rw [hi] at h; cases h⟩
+  · intro q hq
+    rcases List.mem_cons.mp hq with rfl | hq
+    · exact Or.inl List.mem_cons_self
+    · rcases R.sub q hq with h | h
+      · exact Or.inl (List.mem_cons_of_mem _ h)
+      · exact Or.inr h
+  · intro q hq
+    rcases List.mem_cons.mp hq with rfl | hq
+    · exact List.mem_cons_self
+    · exact List.mem_cons_of_mem _ (R.acc q hq)
+
+/-- One request of M is allowed by the specification monitor, and the relation is kept. -/
+theorem vrecv_conforms {cfg : Cfg} {v : View} {A : List Nat} {s : St} (ev : Ev) (R : Rel cfg v A s) :
+    outOf (vrecv cfg v ev).2 ∈ allowedReq cfg.window s (reqOf ev) ∧
+    ∃ A', Rel cfg (vrecv cfg v ev).1 A' (next s (.req (reqOf ev)) (outOf (vrecv cfg v ev).2)) := by
   have hlim : ReplaySpec.SEQ_LIMIT = SEQ_MAX := by decide
   unfold vrecv
   by_cases hval : (!v.init || !cfg.b12) = true
-  · rw [if_pos hval, hval]
+  · have hsy : s.synced = true := by rw [R.synced]; exact hval
+    rw [if_pos hval]
     cases hv : vvalidate cfg v ev.piv with
     | none =>
-      refine ⟨?_, by simpa [outOf, next] using g, by simp [outOf, next, hval]⟩
-      simp only [outOf, allowed, reqOf]
+      refine ⟨?_, rel_keep R _ .rej401 rfl (by intro h; cases h)⟩
+      simp only [outOf, allowedReq, reqOf]
       by_cases ha : ev.authentic = true
-      · simp only [ha, Bool.not_true, Bool.false_eq_true, if_false]
-        by_cases hc : ev.piv ∈ A
+      · simp only [ha, hsy, Bool.not_true, Bool.false_eq_true, if_false]
+        by_cases hc : ev.piv ∈ s.accepted
         · simp [hc]
         · by_cases hl : ev.piv ≥ ReplaySpec.SEQ_LIMIT
           · simp [hc, hl]
-          · by_cases hw : inWindow cfg.window A ev.piv = true
-            · exfalso
-              obtain ⟨v', hv'⟩ := vvalidate_live (cfg := cfg) g (by omega) hc (inWindow_all hw)
-              rw [hv] at hv'; cases hv'
-            · simp [hc, hl, hw]
+          · by_cases hs : ev.piv ∈ s.seen
+            · simp [hc, hl, hs]
+            · by_cases hw : inWindow cfg.window s.all ev.piv = true
+              · exfalso
+                obtain ⟨v', hv'⟩ := rel_live R hc hs hl hw
+                rw [hv] at hv'; cases hv'
+              · simp [hc, hl, hs, hw]
       · simp [ha]
     | some v' =>
       by_cases ha : ev.authentic = true
-      · have hg := vvalidate_good g hv
-        have hi := vvalidate_init_false hv
+      · have hg := vvalidate_good R.good hv
         simp only [ha, Bool.not_true, Bool.false_eq_true, if_false, outOf, next, reqOf]
-        refine ⟨?_, hg.2, by simp [hi]⟩
-        simp only [allowed, ha, Bool.not_true, Bool.false_eq_true, if_false]
-        have hc : A.contains ev.piv = false := by simpa using hg.1
+        refine ⟨?_, _, rel_acc_req R hv⟩
+        simp only [allowedReq, ha, hsy, Bool.not_true, Bool.false_eq_true, if_false]
+        have hc : s.accepted.contains ev.piv = false := by
+          have : ev.piv ∉ s.accepted := fun h => hg.1 (R.acc _ h)
+          simpa using this
         simp only [hc, Bool.false_eq_true, if_false]
-        split
-        · simp
-        · split <;> simp
+        repeat' split
+        all_goals simp
       · have ha' : ev.authentic = false := by simpa using ha
-        simp only [ha', Bool.not_false, if_true, outOf, next]
-        refine ⟨by simp [allowed, reqOf, ha'], g, by simp [hval]⟩
+        simp only [ha', Bool.not_false, if_true]
+        exact ⟨by simp [outOf, allowedReq, reqOf, ha'], rel_keep R _ .rej400 rfl (by intro h; cases h)⟩
   · rw [if_neg hval]
     have hval' : (!v.init || !cfg.b12) = false := by simpa using hval
+    have hsy : s.synced = false := by rw [R.synced]; exact hval'
     have hinit : v.init = true := by
       cases hi : v.init <;> simp [hi] at hval' ⊢
-    rw [hval']
     by_cases ha : ev.authentic = true
     · simp only [ha, Bool.not_true, Bool.false_eq_true, if_false]
       cases he : ev.echo with
-      | none => exact ⟨by simp [outOf, allowed, reqOf, ha, he], by simpa [outOf, next] using g, by simp [outOf, next, hval']⟩
-      | bad => exact ⟨by simp [outOf, allowed, reqOf, ha, he], by simpa [outOf, next] using g, by simp [outOf, next, hval']⟩
+      | none =>
+        exact ⟨by simp [outOf, allowedReq, reqOf, ha, he, hsy], rel_keep R _ .chal rfl (by intro h; cases h)⟩
+      | bad =>
+        exact ⟨by simp [outOf, allowedReq, reqOf, ha, he, hsy], rel_keep R _ .drop rfl (by intro h; cases h)⟩
       | good =>
         simp only []
         cases hv : vvalidate cfg v ev.piv with
         | none =>
           have := vvalidate_none_init hinit hv
-          refine ⟨?_, by simpa [outOf, next] using g, by simp [outOf, next, hval']⟩
           have hl : ev.piv ≥ ReplaySpec.SEQ_LIMIT := by omega
-          simp [outOf, allowed, reqOf, ha, he, hl]
+          exact ⟨by simp [outOf, allowedReq, reqOf, ha, he, hl, hsy], rel_keep R _ .rej401 rfl (by intro h; cases h)⟩
         | some v' =>
-          have hg := vvalidate_good g hv
-          have hi := vvalidate_init_false hv
-          refine ⟨?_, by simpa [outOf, next, reqOf] using hg.2, by simp [outOf, next, hi]⟩
-          simp only [outOf, allowed, reqOf, ha, he, Bool.not_true, Bool.false_eq_true, if_false, Bool.not_false, if_true]
+          refine ⟨?_, _, by simpa [outOf, next, reqOf] using rel_acc_req R hv⟩
+          simp only [outOf, allowedReq, reqOf, ha, he, hsy, Bool.not_true, Bool.false_eq_true, if_false, Bool.not_false,
+            if_true]
           split <;> simp
     · have ha' : ev.authentic = false := by simpa using ha
-      simp only [ha', Bool.not_false, if_true, outOf, next]
-      exact ⟨by simp [allowed, reqOf, ha'], g, by simp [hval']⟩
+      simp only [ha', Bool.not_false, if_true]
+      exact ⟨by simp [outOf, allowedReq, reqOf, ha'], rel_keep R _ .rej400 rfl (by intro h; cases h)⟩
 
+/-- One response of M is allowed by the specification monitor, and the relation is kept. -/
+theorem vrecvRsp_conforms {cfg : Cfg} {v : View} {A : List Nat} {s : St} (x : Rsp) (R : Rel cfg v A s) :
+    outOf (vrecvRsp cfg v x).2 ∈ allowedRsp cfg.window s (rspOf x) ∧
+    ∃ A', Rel cfg (vrecvRsp cfg v x).1 A' (next s (.rsp (rspOf x)) (outOf (vrecvRsp cfg v x).2)) := by
+  have hlim : ReplaySpec.SEQ_LIMIT = SEQ_MAX := by decide
+  by_cases ha : x.authentic = true
+  · cases hp : x.piv with
+    | none =>
+      have he : vrecvRsp cfg v x = (v, .acc) := by unfold vrecvRsp; simp [hp, ha]
+      rw [he]
+      refine ⟨by simp [outOf, allowedRsp, rspOf, ha, hp], A, ?_⟩
+      have : next s (.rsp (rspOf x)) (outOf .acc) = s := by simp [outOf, next, rspOf, hp]
+      rw [this]; exact R
+    | some p =>
+      -- `accept` is always allowed for an authentic response; `reject` needs a reason
+      have hacc : Out.accept ∈ allowedRsp cfg.window s (rspOf x) := by
+        simp only [allowedRsp, rspOf, ha, hp, Bool.not_true, Bool.false_eq_true, if_false]
+        repeat' split
+        all_goals simp
+      by_cases hi : v.init = true
+      · -- not validated: accepted unless last_seq has reached SEQ_MAX
+        by_cases h1 : v.last ≥ SEQ_MAX
+        · have he : vrecvRsp cfg v x = (v, .drop) := by unfold vrecvRsp; simp [hp, hi, h1]
+          rw [he]
+          refine ⟨?_, rel_keep R _ .drop rfl (by intro h; cases h)⟩
+          have hm : v.last ∈ s.all := by
+            rcases R.lastInit hi with h | h
+            · have hsm : SEQ_MAX = 1099511627775 := rfl
+              omega
+            · exact h
+          have hmax : maxOf s.all ≥ ReplaySpec.SEQ_LIMIT := by
+            have := le_maxOf hm; omega
+          simp only [outOf, allowedRsp, rspOf, ha, hp, Bool.not_true, Bool.false_eq_true, if_false]
+          split
+          · simp
+          · simp [hmax]
+        · have he : vrecvRsp cfg v x = (⟨true, if p > v.last then p else v.last, v.win⟩, .acc) := by
+            unfold vrecvRsp; simp [hp, hi, h1, ha]
+          rw [he]
+          refine ⟨hacc, A, ?_⟩
+          have hn : next s (.rsp (rspOf x)) (outOf .acc) = { s with seen := p :: s.seen } := by
+            simp [outOf, next, rspOf, hp]
+          rw [hn]
+          have hA := R.good.fresh hi
+          refine ⟨⟨fun _ => hA, fun h => (by cases h), fun h => (by cases h), fun h => (by cases h),
+            fun h => (by cases h), fun h => (by cases h)⟩, ?_, ?_, ?_, ?_⟩
+          · intro q hq; rw [hA] at hq; cases hq
+          · exact R.acc
+          · rw [R.synced, hi]
+          · intro _
+            dsimp only
+            by_cases h2 : p > v.last
+            · rw [if_pos h2]; right; unfold St.all; simp
+            · rw [if_neg h2]
+              rcases R.lastInit hi with h | h
+              · exact Or.inl h
+              · right
+                rcases mem_all.mp h with h | h
+                · exact mem_all.mpr (Or.inl h)
+                · exact mem_all.mpr (Or.inr (List.mem_cons_of_mem _ h))
+      · have hi' : v.init = false := by simpa using hi
+        cases hv : vvalidate cfg v p with
+        | none =>
+          have he : vrecvRsp cfg v x = (v, .drop) := by unfold vrecvRsp; simp [hp, hi', hv]
+          rw [he]
+          refine ⟨?_, rel_keep R _ .drop rfl (by intro h; cases h)⟩
+          simp only [outOf, allowedRsp, rspOf, ha, hp, Bool.not_true, Bool.false_eq_true, if_false]
+          by_cases hc : p ∈ s.all
+          · simp [hc]
+          · by_cases hl : p ≥ ReplaySpec.SEQ_LIMIT ∨ maxOf s.all ≥ ReplaySpec.SEQ_LIMIT
+            · simp [hc, hl]
+            · by_cases hw : inWindow cfg.window s.all p = true
+              · exfalso
+                have hc' := fun h => hc (mem_all.mpr h)
+                obtain ⟨v', hv'⟩ := rel_live R (fun h => hc' (Or.inl h)) (fun h => hc' (Or.inr h))
+                  (fun h => hl (Or.inl h)) hw
+                rw [hv] at hv'; cases hv'
+              · simp [hc, hl, hw]
+        | some v1 =>
+          rcases vrecvRsp_good (cfg := cfg) x R.good with ⟨p', v', hp', _, _, hv', he, hnot, g'⟩ | ⟨hno, _⟩
+          · rw [hp] at hp'; cases hp'
+            rw [hv] at hv'; cases hv'
+            rw [he]
+            refine ⟨hacc, p :: A, ?_⟩
+            have hn : next s (.rsp (rspOf x)) (outOf .acc) = { s with seen := p :: s.seen } := by
+              simp [outOf, next, rspOf, hp]
+            rw [hn]
+            have hi1 := vvalidate_init_false hv
+            refine ⟨g', ?_, ?_, ?_, fun h => by rw [hi1] at h; cases h⟩
+            · intro q hq
+              rcases List.mem_cons.mp hq with rfl | hq
+              · exact Or.inr List.mem_cons_self
+              · rcases R.sub q hq with h | h
+                · exact Or.inl h
+                · exact Or.inr (List.mem_cons_of_mem _ h)
+            · intro q hq; exact List.mem_cons_of_mem _ (R.acc q hq)
+            · rw [R.synced, hi', hi1]
+          · exfalso
+            rcases hno with h | h | h
+            · rw [hp] at h; cases h
+            · exact hi h
+            · -- validated, authentic and `vvalidate` succeeded: it is accepted
+              have hg := vvalidate_good R.good hv
+              have hi1 := vvalidate_init_false hv
+              have hlt := hg.2.lt hi1
+              have h1 : ¬ v1.last ≥ SEQ_MAX := by omega
+              apply h
+              unfold vrecvRsp
+              simp [hp, hi', hv, h1, ha]
+  · have ha' : x.authentic = false := by simpa using ha
+    have he := vrecvRsp_forged (cfg := cfg) ha' (R.good.lt : Sane v)
+    rw [he]
+    exact ⟨by simp [outOf, allowedRsp, rspOf, ha'], rel_keep R _ .drop rfl (by intro h; cases h)⟩
 
-theorem strace_conforms (cfg : Cfg) (evs : List Ev) : ∀ (r : Recip) (A : List Nat), Good r.view A →
-    conforms cfg.window ⟨A, !r.init || !cfg.b12⟩ (strace cfg r evs) := by
-  induction evs with
-  | nil => intro _ _ _; trivial
-  | cons ev evs ih =>
-    intro r A g
-    obtain ⟨h1, h2, h3⟩ := vrecv_conforms (cfg := cfg) ev g
-    have hv : r.view.init = r.init := rfl
-    rw [hv] at h1 h2 h3
-    rw [← recv_snd] at h1 h2 h3
-    rw [← recv_fst_view] at h2 h3
+theorem vstep_conforms {cfg : Cfg} {v : View} {A : List Nat} {s : St} (m : Msg) (R : Rel cfg v A s) :
+    outOf (vstep cfg v m).2 ∈ allowed cfg.window s (msgOf m) ∧
+    ∃ A', Rel cfg (vstep cfg v m).1 A' (next s (msgOf m) (outOf (vstep cfg v m).2)) := by
+  cases m with
+  | req e => exact vrecv_conforms e R
+  | rsp x => exact vrecvRsp_conforms x R
+
+theorem strace_conforms (cfg : Cfg) (ms : List Msg) : ∀ (r : Recip) (A : List Nat) (s : St), Rel cfg r.view A s →
+    conforms cfg.window s (strace cfg r ms) := by
+  induction ms with
+  | nil => intro _ _ _ _; trivial
+  | cons m ms ih =>
+    intro r A s R
+    obtain ⟨h1, A', h2⟩ := vstep_conforms (cfg := cfg) m R
+    rw [← step_snd] at h1 h2
+    rw [← step_fst_view] at h2
     simp only [strace, conforms]
-    refine ⟨h1, ?_⟩
-    have := ih (recv cfg r ev).1 _ h2
-    have hv' : (recv cfg r ev).1.view.init = (recv cfg r ev).1.init := rfl
-    rw [hv'] at h3
-    rw [← h3] at this
-    exact this
+    exact ⟨h1, ih _ A' _ h2⟩
 
 /-- PIVs of the requests a trace reports as accepted. -/
-def tracc : List (Req × Out) → List Nat
+def tracc : List (ReplaySpec.Msg × Out) → List Nat
   | [] => []
-  | (q, o) :: t => (if o = .accept then [q.piv] else []) ++ tracc t
+  | (.req q, o) :: t => (if o = .accept then [q.piv] else []) ++ tracc t
+  | (.rsp _, _) :: t => tracc t
 
-theorem tracc_strace (cfg : Cfg) (evs : List Ev) : ∀ r : Recip, tracc (strace cfg r evs) = accepted cfg r evs := by
-  induction evs with
+theorem tracc_strace (cfg : Cfg) (ms : List Msg) : ∀ r : Recip, tracc (strace cfg r ms) = accepted cfg r ms := by
+  induction ms with
   | nil => intro _; rfl
-  | cons ev evs ih =>
+  | cons m ms ih =>
     intro r
-    simp only [strace, tracc, accepted, ih]
-    cases h : (recv cfg r ev).2 <;> simp [outOf, reqOf]
+    cases m with
+    | req e =>
+      simp only [strace, msgOf, tracc, accepted, acceptedBy, ih, step]
+      cases h : (recv cfg r e).2 <;> simp [outOf, reqOf]
+    | rsp x =>
+      simp only [strace, msgOf, tracc, accepted, acceptedBy, ih, List.nil_append]
 
-theorem spec_nodup_aux (w : Nat) (t : List (Req × Out)) : ∀ s : St, (s.synced = false → s.accepted = []) →
+theorem spec_nodup_aux (w : Nat) (t : List (ReplaySpec.Msg × Out)) : ∀ s : St, (s.synced = false → s.accepted = []) →
     conforms w s t → (tracc t).Nodup ∧ ∀ p ∈ tracc t, p ∉ s.accepted := by
   induction t with
   | nil => intro _ _ _; simp [tracc]
   | cons x t ih =>
     intro s hs hc
-    obtain ⟨q, o⟩ := x
+    obtain ⟨m, o⟩ := x
     simp only [conforms] at hc
     obtain ⟨hal, hc⟩ := hc
-    by_cases ho : o = .accept
-    · subst ho
-      have hnot : q.piv ∉ s.accepted := by
-        intro hm
-        unfold allowed at hal
-        by_cases ha : q.authentic = true
-        · simp only [ha, Bool.not_true, Bool.false_eq_true, if_false] at hal
-          cases hsy : s.synced with
-          | false => rw [hs hsy] at hm; cases hm
-          | true =>
-            simp [hsy, hm] at hal
-        · simp [ha] at hal
-      obtain ⟨nd, dis⟩ := ih (next s q .accept) (by simp [next]) hc
-      simp only [tracc, if_true, List.singleton_append, List.nodup_cons]
-      refine ⟨⟨fun hm => dis _ hm (by simp [next]), nd⟩, ?_⟩
-      intro p hp
-      rcases List.mem_cons.mp hp with rfl | hp
-      · exact hnot
-      · exact fun hA => dis p hp (by simp [next, hA])
-    · have hn : next s q o = s := by cases o <;> simp_all [next]
-      rw [hn] at hc
-      simp only [tracc, ho, if_false, List.nil_append]
-      exact ih s hs hc
-
+    cases m with
+    | rsp x =>
+      have hacc : (next s (.rsp x) o).accepted = s.accepted ∧ (next s (.rsp x) o).synced = s.synced := by
+        cases o <;> (try exact ⟨rfl, rfl⟩)
+        obtain ⟨a, p⟩ := x
+        cases p <;> exact ⟨rfl, rfl⟩
+      have := ih (next s (.rsp x) o) (by rw [hacc.1, hacc.2]; exact hs) hc
+      rw [hacc.1] at this
+      simpa [tracc] using this
+    | req q =>
+      by_cases ho : o = .accept
+      · subst ho
+        have hnot : q.piv ∉ s.accepted := by
+          intro hm
+          simp only [allowed] at hal
+          unfold allowedReq at hal
+          by_cases ha : q.authentic = true
+          · simp only [ha, Bool.not_true, Bool.false_eq_true, if_false] at hal
+            cases hsy : s.synced with
+            | false => rw [hs hsy] at hm; cases hm
+            | true =>
+              simp [hsy, hm] at hal
+          · simp [ha] at hal
+        obtain ⟨nd, dis⟩ := ih (next s (.req q) .accept) (by simp [next]) hc
+        simp only [tracc, if_true, List.singleton_append, List.nodup_cons]
+        refine ⟨⟨fun hm => dis _ hm (by simp [next]), nd⟩, ?_⟩
+        intro p hp
+        rcases List.mem_cons.mp hp with rfl | hp
+        · exact hnot
+        · exact fun hA => dis p hp (by simp [next, hA])
+      · have hn : next s (.req q) o = s := next_not_accept _ _ _ ho
+        rw [hn] at hc
+        simp only [tracc, ho, if_false, List.nil_append]
+        exact ih s hs hc
 
 end Conformance
 
